@@ -276,7 +276,9 @@ func oracleBits(a atom, probes []string) bits {
 	return b
 }
 
-func oracleBitsOne(a atom, v string, present bool) bool { return oracle.Admits(a.Op, a.Vals, v, present) }
+func oracleBitsOne(a atom, v string, present bool) bool {
+	return oracle.Admits(a.Op, a.Vals, v, present)
+}
 
 // ---- exact (symbolic) non-emptiness of a conjunction over the infinite domain of label strings ----
 
